@@ -433,9 +433,61 @@ func normTerms(ts []term) Expr {
 	return out
 }
 
+// closedInf: e is a closed extended-real constant (numerals and ±Inf constants only) that involves an infinity;
+// its IEEE value.  Arithmetic among such constants is folded in float64 (Inf-Inf and 0·Inf are NaN, c·Inf is ±Inf)
+// instead of treating the infinity as an algebraic symbol.
+func closedInf(e Expr) (float64, bool) {
+	has := false
+	for _, t := range e.terms {
+		for _, f := range t.f {
+			if f.a.Kind != AFn || len(f.a.Args) != 0 || !strings.HasPrefix(f.a.Name, "const_") {
+				return 0, false
+			}
+			if f.a.Name == "const_+Inf" || f.a.Name == "const_-Inf" {
+				has = true
+			}
+		}
+	}
+	if !has {
+		return 0, false
+	}
+	v, err := e.Eval(nil)
+	if err != nil {
+		return 0, false
+	}
+	return v, true
+}
+
+// ClosedInf: see closedInf.
+func ClosedInf(e Expr) (float64, bool) { return closedInf(e) }
+
+// ClosedConst: see closedConst.
+func ClosedConst(e Expr) (float64, bool) { return closedConst(e) }
+
+// closedConst: a closed constant with or without infinities.
+func closedConst(e Expr) (float64, bool) {
+	if v, ok := closedInf(e); ok {
+		return v, true
+	}
+	if r, ok := e.Const(); ok {
+		f, _ := r.Float64()
+		return f, true
+	}
+	return 0, false
+}
+
 func Add(a, b Expr) Expr {
 	if nanInPlay && (HasNaN(a) || HasNaN(b)) {
 		return nanE()
+	}
+	if va, ok := closedInf(a); ok {
+		if vb, ok := closedConst(b); ok {
+			return NumF(va + vb)
+		}
+	} else if vb, ok := closedInf(b); ok {
+		if va, ok := closedConst(a); ok {
+			return NumF(va + vb)
+		}
 	}
 	ts := make([]term, 0, len(a.terms)+len(b.terms))
 	ts = append(ts, a.terms...)
@@ -565,6 +617,15 @@ func Mul(a, b Expr) Expr {
 	if nanInPlay && (HasNaN(a) || HasNaN(b)) {
 		return nanE()
 	}
+	if va, ok := closedInf(a); ok {
+		if vb, ok := closedConst(b); ok {
+			return NumF(va * vb)
+		}
+	} else if vb, ok := closedInf(b); ok {
+		if va, ok := closedConst(a); ok {
+			return NumF(va * vb)
+		}
+	}
 	if len(a.terms) == 0 || len(b.terms) == 0 {
 		return Expr{}
 	}
@@ -605,6 +666,9 @@ func ratPow(c *big.Rat, k int) (*big.Rat, bool) {
 func PowInt(a Expr, k int) Expr {
 	if nanInPlay && HasNaN(a) && k != 0 {
 		return nanE()
+	}
+	if va, ok := closedInf(a); ok {
+		return NumF(math.Pow(va, float64(k)))
 	}
 	if k == 0 {
 		return NumI(1)
@@ -736,6 +800,23 @@ func FnE(name string, args ...Expr) Expr {
 		for _, a := range args {
 			if HasNaN(a) {
 				return nanE()
+			}
+		}
+	}
+	if !strings.HasPrefix(name, "const_") && len(args) > 0 {
+		allClosed, anyInf := true, false
+		for _, a := range args {
+			if _, ok := closedConst(a); !ok {
+				allClosed = false
+				break
+			}
+			if _, ok := closedInf(a); ok {
+				anyInf = true
+			}
+		}
+		if allClosed && anyInf {
+			if v, err := atomExpr(&Atom{Kind: AFn, Name: name, Args: args}).Eval(nil); err == nil {
+				return NumF(v)
 			}
 		}
 	}
